@@ -40,6 +40,20 @@ func init() {
 			}
 		},
 	})
+
+	Registry["C08"].ColdStart = func(c *mon.Ctx) {
+		r := c.SharedRng(fmt.Sprintf("cold%d", c.Shard))
+		cs := &h2cCase{Fn: []string{"H2G", "E2G", "H2S"}[c.Shard%3], Layout: "exact", Class: "concurrent-cold-start"}
+		if "H2G" == "H2S" {
+			cs.Fn = "H2S"
+		}
+
+		for g := 0; g < 16; g++ {
+			cs.Conc = append(cs.Conc, h2cPair{Msg: mon.H(r.Bytes(4 + g)), Dst: mon.H(r.Bytes([]int{20, 300}[g%2]))})
+		}
+
+		h2cRunHistory(c, cs)
+	}
 }
 
 
@@ -140,8 +154,16 @@ func c08Run(c *mon.Ctx, csAny any) {
 
 	var e *secp256k1.Element
 
+	// what the caller passed, as it was BEFORE the call (the oracle must not read buffers the call may have changed)
+	msgWas, dstWas := append([]byte{}, msg...), append([]byte{}, dst...)
+
 	c.Eval(1)
 	pan, pv := mon.Call(func() { e = call(msg, dst) })
+
+	if !bytes.Equal(msg, msgWas) || !bytes.Equal(dst, dstWas) {
+		c.Fail(fmt.Sprintf("%s changed the contents of its message/DST arguments (layout %s)", cs.Fn, cs.Layout), "h2c-mutates-arguments", nil)
+		return
+	}
 
 	if len(dst) == 0 {
 		c.Count("panic:empty-dst")
